@@ -1,4 +1,5 @@
 mod corpus;
+mod csscolor;
 mod cssread;
 mod engine;
 mod gen;
@@ -38,12 +39,14 @@ fn main() {
         [e, n] if e == "--sample-grammar" => {
             use proptest::strategy::{Strategy, ValueTree};
             let mut runner = proptest::test_runner::TestRunner::deterministic();
-            let st = gen::prog::sheet(gen::prog::Cfg { wild: false, ..Default::default() });
+            let st = gen::prog::sheet(gen::prog::Cfg { wild: false, safe: true, ..Default::default() });
             for _ in 0..n.parse::<usize>().unwrap_or(10) {
                 let src = st.new_tree(&mut runner).unwrap().current();
                 let r = rs::compile(src.as_bytes(), &rs::Opts::default());
-                if let rs::Res::Err { kind: "ParseError", text } = &r {
-                    println!("=== {}", text.lines().take(6).collect::<Vec<_>>().join(" | "));
+                match &r {
+                    rs::Res::Err { kind, text } => println!("=== {kind} {}", text.lines().take(6).collect::<Vec<_>>().join(" | ")),
+                    rs::Res::Panic(m) => println!("=== PANIC {m}"),
+                    _ => {}
                 }
             }
             0
